@@ -31,6 +31,66 @@ func runC10(c *Ctx) {
 	receiverPerCall(c, "R3")
 	c10R4(c)
 	interpreterState(c, "R6")
+	entryArgsReadOnly(c, "R7")
+	c.shared("R8", "C14/R2", "the output is a function of the input bytes, not of the kind of file they come from: the interpreter's decoder reads the opened file (or standard input) itself — no read-ahead sized by Stat(), which a pipe, a device or a file that grows answers differently", keyHas("input-files", "stdin-only"), c14R2)
+}
+
+// entryArgsReadOnly (R7): a run is a function of the arguments given. The slices handed to the
+// entry points (input files, root selectors) belong to the caller, who may run the same arguments
+// again: no element store through such a parameter (or a re-slice of it), and no append to a
+// re-slice of it (which writes the caller's backing array).
+func entryArgsReadOnly(c *Ctx, rule string) {
+	p := c.P
+	c.note("%s entry-arguments-read-only: in every exported entry point of package lang no element of a slice parameter (or of a re-slice of it) is stored to, and no append extends a re-slice of it: filtering `args[:0]` in place rewrites the caller's slice, and the second run with the same arguments sees other selectors / files.", rule)
+	for _, fn := range exportedLangEntryPoints(p) {
+		for _, par := range fn.Params {
+			if _, isSlice := par.Type().Underlying().(*types.Slice); !isSlice {
+				continue
+			}
+			derived := map[ssa.Value]bool{par: true}
+			for changed := true; changed; {
+				changed = false
+				allInstrs(fn, func(in ssa.Instruction) {
+					v, ok := in.(ssa.Value)
+					if !ok || derived[v] {
+						return
+					}
+					switch x := in.(type) {
+					case *ssa.Slice:
+						if derived[x.X] {
+							derived[v], changed = true, true
+						}
+					case *ssa.Phi:
+						for _, e := range x.Edges {
+							if derived[e] {
+								derived[v], changed = true, true
+							}
+						}
+					}
+				})
+			}
+			var bad []string
+			var at ssa.Instruction
+			allInstrs(fn, func(in ssa.Instruction) {
+				switch x := in.(type) {
+				case *ssa.Store:
+					if ia, ok := x.Addr.(*ssa.IndexAddr); ok && derived[ia.X] {
+						bad, at = append(bad, "store to "+p.RenderShort(ia)), in
+					}
+				case *ssa.Call:
+					if bi, ok := x.Call.Value.(*ssa.Builtin); ok && bi.Name() == "append" && len(x.Call.Args) > 0 && derived[x.Call.Args[0]] && x.Call.Args[0] != ssa.Value(par) {
+						bad, at = append(bad, "append to "+p.RenderShort(x.Call.Args[0])), in
+					}
+				}
+			})
+			pos := p.Pos(fn.Pos())
+			if at != nil {
+				pos = p.InstrPos(at)
+			}
+			c.check(len(bad) == 0, rule, "entry-arguments-read-only "+shortName(fn)+" "+par.Name(), pos, "the caller's slice is only read", "the entry point writes into the slice its caller passed ("+strings.Join(bad, "; ")+"): the caller's arguments are different after the run, so running them again gives another result")
+		}
+	}
+	c.floor(rule, 2)
 }
 
 // the fields of Evaluator and what they are for; anything else that evaluation writes is a memory of
